@@ -123,6 +123,7 @@ class Executor(StmtMixin, LoopMixin, DriverMixin):
             return
         self.obligations.append(Obligation("%s/%s" % (self.fn, name), st.facts, goal, kind, self.fn, expect=expect,
                                            trace=st.trace, bounded=st.bounded, line=line, model_vars=self.model_vars))
+        self.obligations[-1].contract = self.c
 
     # =====================================================================================
     # locations (mutable containers / fields)
